@@ -70,6 +70,8 @@ pub trait Decl: Sized + Serialize + DeserializeOwned + 'static {
     type TwinInner: Clone + Debug + Serialize + DeserializeOwned + 'static;
     /// `#[derive(Serialize, Deserialize)] struct <same name>(pub TwinInner);`
     type Twin: Serialize + DeserializeOwned + 'static;
+    /// The container positions this declaration is exercised in.
+    type Shapes: crate::shapes::ShapeSet;
 
     const NAME: &'static str;
     const TEXT: &'static str;
